@@ -27,6 +27,10 @@ def call(pts, tol, mode):
     # history (every other call): the track OBJECT was simplified before, with the same mode and tolerance, when its fixes
     # were elsewhere (mirrored); they were then moved in place - same number of fixes - and the first result was trimmed by
     # the caller.  The answer is defined by the track as it stands at the time of the call.
+    # the property does not depend on the unit of length: a third of the calls are made on coordinates AND tolerance divided
+    # by 4 (exact in binary floating point; a lattice box is then smaller than one unit)
+    sc = 0.25 if (len(pts) + int(sum(3 * p[0] + p[1] for p in pts))) % 3 == 0 else 1.0
+    e["scale"] = sc
     hist = (len(pts) + int(sum(p[0] + 2 * p[1] for p in pts)) + (1 if mode == "dp" else 0)) % 2 == 0
     md = MODE_SIMPLIFY_DOUGLAS_PEUCKER if mode == "dp" else MODE_SIMPLIFY_VISVALINGAM
     if hist:
@@ -34,7 +38,7 @@ def call(pts, tol, mode):
         tr = Track([Obs(ENUCoords(float(9 - p[1]), float(p[0] * (-1) ** k), float(k + 1)), ObsTime.readUnixTime(t0 + k)) for k, p in enumerate(pts)])
         try:
             with core.quiet():
-                first = simplify(tr, float(tol), md)
+                first = simplify(tr, float(tol) * sc, md)
                 if first is not None and first.size() > 1 and len(pts) > 2:
                     first.removeObs(0)
         except (Exception, SystemExit):
@@ -42,19 +46,19 @@ def call(pts, tol, mode):
         if tr.size() != len(pts):        # (the result of a tiny track may share its list with the input: start again)
             tr = Track([Obs(ENUCoords(0.0, 0.0, float(k + 1)), ObsTime.readUnixTime(t0 + k)) for k, p in enumerate(pts)])
         for k, p in enumerate(pts):
-            tr.getObs(k).position.setX(float(p[0]))
-            tr.getObs(k).position.setY(float(p[1]))
+            tr.getObs(k).position.setX(float(p[0]) * sc)
+            tr.getObs(k).position.setY(float(p[1]) * sc)
     else:
-        tr = Track([Obs(ENUCoords(float(p[0]), float(p[1]), float(k + 1)), ObsTime.readUnixTime(t0 + k)) for k, p in enumerate(pts)])
+        tr = Track([Obs(ENUCoords(float(p[0]) * sc, float(p[1]) * sc, float(k + 1)), ObsTime.readUnixTime(t0 + k)) for k, p in enumerate(pts)])
     try:
         with core.quiet():
-            out = simplify(tr, int(tol) if tol.denominator == 1 and len(pts) % 2 else float(tol), md)
+            out = simplify(tr, int(tol) if tol.denominator == 1 and len(pts) % 2 and sc == 1.0 else float(tol) * sc, md)
         kept = []
         for k in range(out.size()):
             o = out.getObs(k)
             tag = o.position.getZ()
             idx = int(round(tag)) if abs(tag - round(tag)) < 1e-9 else 0
-            if not (1 <= idx <= len(pts)) or abs(o.position.getX() - pts[idx - 1][0]) > 1e-9 or abs(o.position.getY() - pts[idx - 1][1]) > 1e-9 \
+            if not (1 <= idx <= len(pts)) or abs(o.position.getX() / sc - pts[idx - 1][0]) > 1e-9 or abs(o.position.getY() / sc - pts[idx - 1][1]) > 1e-9 \
                     or abs(o.timestamp.toAbsTime() - (t0 + idx - 1)) > 1e-6:
                 idx = 0
             kept.append(idx)
